@@ -207,29 +207,46 @@ func (i *interpreter) fmtString(spec string, verb byte, s value) []value {
 
 // sprintf implements the formatting loop.
 func (i *interpreter) sprintf(fr *frame, format value, args []value) value {
-	f, ok := format.(string)
-	if !ok {
-		f = i.concValue(format).(string)
+	// A format string may itself contain symbolic bytes (e.g. a template name spliced
+	// into an error format); those are copied through as literal bytes (a symbolic '%'
+	// is not interpreted as a verb: message wording is not a subject of any check).
+	fb := strBytes(format)
+	isC := func(p int) (byte, bool) {
+		if p < len(fb) {
+			if c, ok := fb[p].(uint8); ok {
+				return c, true
+			}
+		}
+		return 0, false
 	}
 	var out []value
 	argN := 0
-	for p := 0; p < len(f); {
-		c := f[p]
-		if c != '%' {
-			out = append(out, c)
+	for p := 0; p < len(fb); {
+		c, conc := isC(p)
+		if !conc || c != '%' {
+			out = append(out, fb[p])
 			p++
 			continue
 		}
 		q := p + 1
-		for q < len(f) && strings.IndexByte("+-# 0123456789.*", f[q]) >= 0 {
+		for {
+			d, ok := isC(q)
+			if !ok || strings.IndexByte("+-# 0123456789.*", d) < 0 {
+				break
+			}
 			q++
 		}
-		if q >= len(f) {
+		verb, ok := isC(q)
+		if !ok {
 			out = append(out, strBytes("%!(NOVERB)")...)
-			break
+			p = q
+			continue
 		}
-		verb := f[q]
-		spec := f[p : q+1]
+		var sb strings.Builder
+		for k := p; k <= q; k++ {
+			sb.WriteByte(fb[k].(uint8))
+		}
+		spec := sb.String()
 		p = q + 1
 		if verb == '%' {
 			out = append(out, uint8('%'))
